@@ -458,13 +458,15 @@ package server
 //@   ensures [success-means-published] result == nil ==> ghost.pubOK
 
 //@ func (*activityManager).SetLastPublishedRaftIndex serves C18
-//@   requires a != nil
 //@   modifies a.lastPublishedRaftIndex
 //@   ensures a.lastPublishedRaftIndex == index
 //@ func (*activityManager).LastPublishedRaftIndex serves C18
-//@   requires a != nil
 //@   modifies nothing
 //@   ensures result == a.lastPublishedRaftIndex
 //@ callers (*activityManager).publishActivityEvent serves C18: (*activityManager).handleRaftLog
 //@ callers (*activityManager).handleRaftLog serves C18: (*activityManager).dispatch
 //@ callers (*activityManager).SetLastPublishedRaftIndex serves C18: (*Server).apply
+// Raft indices never reach 2^64-1 (assumption; otherwise the dispatcher's index++ would wrap)
+//@ assume func (*raftNode).getCommitIndex
+//@   modifies nothing
+//@   ensures result < 18446744073709551615
